@@ -58,6 +58,27 @@ def tmpl(a):
     raise ValueError("format template is not constant")
 
 
+def castle_letter(x):
+    """a written value that is a castling letter -> (upper-cased?, wing, 'k'|'q'|'<file letter>', source right or None)"""
+    while x[0] in ("ref", "deref"):
+        x = x[1]
+    upper = x[0] == "call" and x[1].endswith("to_ascii_uppercase")
+    if upper:
+        x = x[2][0]
+        while x[0] in ("ref", "deref"):
+            x = x[1]
+    if x[0] == "int" and x[2] == "char" and chr(x[1]) in "KQ":
+        return True, ("short" if chr(x[1]) == "K" else "long"), chr(x[1]).lower(), None     # an upper-case literal
+    if x[0] == "int" and x[2] == "char" and chr(x[1]) in "kq":
+        return upper, ("short" if chr(x[1]) == "k" else "long"), chr(x[1]), None
+    rights_any = lambda y: y[0] == "get" and y[1] == "castle_rights"
+    if x[0] == "call" and x[1].endswith("Into<U>>::into") and sym.contains(x, rights_any):
+        fs = sym.subterms(x, lambda y: y[0] == "field" and y[2] in ("short", "long") and rights_any(y[1]))
+        if fs:
+            return upper, fs[0][2], "<file letter>", fs[0]
+    return None
+
+
 def idx_ty(v):
     """type tag of the constant in `counter + 1`"""
     if isinstance(v, tuple) and v and v[0] == "bin":
@@ -164,11 +185,15 @@ def run(ctx):
             return True
         lw = [e_ for e_ in p_.events if e_.kind == "call" and e_.depth == 0 and "core::fmt" in e_.name and "::write_" in e_.name]
         return bool(lw) and p_.ret == lw[-1].ret
-    rets = [p for p in paths if fmt_ok(p)]
+    # the castling field is read on paths where the two-element loops (colours, wings) are executed element by element:
+    # a loop over Color::ALL and four ifs written out by hand are then the same straight-line paths
+    paths_u = sym.SymExec(f, b, max_paths=200000, unroll_const=2).run()
+    ctx.saw("%s: %d paths with the colour loop unrolled" % (b.key, len(paths_u)))
+    rets = [p for p in paths_u if fmt_ok(p)]
     try:
         n = 0
         for p in rets:
-            w = [(t, a) for t, a, e in writes(L, p)]
+            w = [(t, a) for t, a, e in writes(L, p) if not (t == "{}" and a and castle_letter(a[0]) is not None)]
             n += 1
             ok = len(w) >= 3 and w[0] == (" {} ", (STM,))
             rest = w[1:]
@@ -365,69 +390,71 @@ def run(ctx):
     # paths): which right it stands for, plain letter or file letter, its case, and the order of the two wings.
     seen_up = set()
     nletters = 0
-    for p in lbs:
-        colour_loop = [c for c in p.conds if c[0][0] == "discr" and c[0][1][0] == "next" and c[1] == 1 and
-                       sym.contains(c[0], lambda y: y[0] == "array" and len(y[1]) == 2 and y[1][0][0] == "enum" and y[1][0][1] == COLOR)]
-        if not colour_loop:
-            continue
+    ORDER = [("White", "short"), ("White", "long"), ("Black", "short"), ("Black", "long")]
+    decided = {k: set() for k in ORDER}
+    for p in rets:
         lifted = [(L.lift(c[0]), c[1]) for c in p.conds]
         alt = [v for e_, v in lifted if sym.contains(e_, lambda y: y[0] == "call" and y[1].endswith("::alternate")) and isinstance(v, int)]
-        white = None
-        for e_, v in lifted:
-            if e_[0] == "bin" and e_[1] in ("Eq", "Ne") and ("enum", COLOR, "White") in (e_[2], e_[3]) and not sym.contains(e_, lambda y: y[0] == "color_on") and isinstance(v, int):
-                white = (e_[1] == "Eq") == bool(v)
-        present = {}
-        for e_, v in lifted:
-            if e_[0] == "discr" and e_[1][0] == "field" and e_[1][2] in ("short", "long") and sym.contains(e_[1][1], rights_any) and isinstance(v, int):
-                present[e_[1][2]] = (v == 1)
-        order = []
-        for t_, a_, e_ in writes(L, p):
+        # which rights this path found present / absent, in the order it asked
+        asked = []
+        for i_, (e_, v) in enumerate(lifted):
+            if e_[0] == "discr" and e_[1][0] == "field" and e_[1][2] in ("short", "long") and rights_any(e_[1][1]):
+                col = e_[1][1][3] if len(e_[1][1]) > 3 else None
+                if isinstance(v, int):
+                    some_ = v == 1
+                elif isinstance(v, tuple) and v and v[0] == "not" and set(v[1]) & {0, 1} in ({0}, {1}):
+                    some_ = 0 in v[1]
+                else:
+                    continue
+                if col is not None and col[0] == "enum" and col[1] == COLOR:
+                    asked.append((i_, (col[2], e_[1][2]), some_))
+                    decided[(col[2], e_[1][2])].add(some_)
+        stream = writes(L, p)
+        seq = []
+        for t_, a_, e_ in stream:
             if t_ != "{}" or not a_:
                 continue
-            x = a_[0]
-            while x[0] in ("ref", "deref"):
-                x = x[1]
-            upper = x[0] == "call" and x[1].endswith("to_ascii_uppercase")
-            if upper:
-                x = x[2][0]
-                while x[0] in ("ref", "deref"):
-                    x = x[1]
-            wing = val = None
-            if x[0] == "int" and chr(x[1]) in "kq":
-                wing, val = ("short" if chr(x[1]) == "k" else "long"), chr(x[1])
-            elif x[0] == "call" and x[1].endswith("Into<U>>::into") and sym.contains(x, rights_any):
-                fs = sym.subterms(x, lambda y: y[0] == "field" and y[2] in ("short", "long") and sym.contains(y[1], rights_any))
-                if fs:
-                    wing, val = fs[0][2], "<file letter>"
-            if wing is None:
+            cl = castle_letter(a_[0])
+            if cl is None:
                 continue
+            upper, wing, val, src = cl
             nletters += 1
-            order.append(wing)
+            # the right this letter stands for: the one whose file it is, or (for k/q) the last right of that wing found
+            # present before the write
+            before = [x for x in asked if x[0] < e_.ncond and x[2] and x[1][1] == wing]
+            key = before[-1][1] if before else None
+            if src is not None and len(src[1]) > 3 and src[1][3][0] == "enum":
+                k2 = (src[1][3][2], wing)
+                key = k2 if any(x[1] == k2 for x in before) else None
+            ctx.check(key is not None, "writer:letter-only-for-held-right",
+                      "a castling letter is written for a right that was not tested to be present (%s)" % wing, where)
+            if key is None:
+                continue
+            seq.append(key)
             letters[wing].add(val)
-            ctx.check(present.get(wing) is True, "writer:letter-only-for-held-right", "a castling letter is written for a right that was not tested to be present (%s)" % wing, where)
             if val == "<file letter>":
                 ctx.check(bool(alt) and alt[-1] == 1, "writer:file-letter-only-shredder", "a file letter is written for a castling right outside Shredder (alternate) mode", where)
+                okf = src is not None and src[2] == wing and len(src[1]) > 3 and src[1][3] == ("enum", COLOR, key[0])
+                ctx.check(okf, "writer:file-letter-of-that-right", "the file letter written for %s %s is not the file of that right" % key, where)
             else:
                 ctx.check(bool(alt) and alt[-1] == 0, "writer:kq-only-plain", "'%s' is written for a castling right in Shredder (alternate) mode" % val, where)
-            ctx.check(white is not None and white == upper, "writer:castle-case", "a castling letter is not upper-cased exactly for White", where)
+            ctx.check((key[0] == "White") == upper, "writer:castle-case", "a castling letter is not upper-cased exactly for White", where)
             seen_up.add(upper)
-            cols = sym.subterms(colour_loop[-1][0], lambda y: y[0] == "array" and len(y[1]) == 2 and y[1][0][0] == "enum" and y[1][0][1] == COLOR)
-            ctx.check(bool(cols) and [z[2] for z in cols[0][1]] == ["White", "Black"], "writer:white-before-black", "castling letters are not written for White first", where)
-        ctx.check(order in ([], ["short"], ["long"], ["short", "long"]), "writer:short-before-long", "castling letters of one colour are not written short then long: %s" % order, where)
-        # a right that is held gets its letter on this pass
-        for wing, pr in present.items():
-            if pr and len(present) == 2:
-                ctx.check(wing in order, "writer:held-right-written", "a held %s right gets no letter" % wing, where)
-    ctx.floor("castling letters written on the paths of one colour pass", nletters, 8)
+        pos = [ORDER.index(k) for k in seq]
+        ctx.check(pos == sorted(set(pos)), "writer:short-before-long",
+                  "castling letters are not written White before Black and, per colour, short before long: %s" % seq, where)
+        # every right found present gets its letter, every right found absent gets none
+        held = [k for i_, k, pr in asked if pr]
+        ctx.check(sorted(held) == sorted(seq), "writer:held-right-written", "held rights %s but letters for %s" % (held, seq), where)
+        has_dash = ("-", ()) in [(t_, a_) for t_, a_, e_ in stream]
+        ctx.check(has_dash == (not seq), "writer:dash-iff-nothing-written", "`-` for the castling field is not written exactly when no letter was", where)
+    ctx.floor("castling letters written on Display's paths", nletters, 8)
+    ctx.check(all(v == {True, False} for v in decided.values()), "writer:all-four-rights-asked",
+              "Display does not ask for each of the four castling rights: %s" % {k: sorted(v) for k, v in decided.items()}, where)
     ok = letters == {"short": {"<file letter>", "k"}, "long": {"<file letter>", "q"}}
     ctx.check(ok, "writer:castle-letters", "the writer's castling letters are not {file letter | 'k'} for short and {file letter | 'q'} for long: %s" % {k: sorted(v) for k, v in letters.items()}, where,
               sample={"writer": {k: sorted(v) for k, v in letters.items()}})
     ctx.check(seen_up == {True, False}, "writer:castle-cases", "castling letter writer lacks an upper- or lower-case path", where)
-    dash = [p for p in rets if ("-", ()) in [(t, a) for t, a, e in writes(L, p)]]
-    for p in dash:
-        flags = [c for c in p.conds if c[0][0] == "hv" and "wrote" in c[0][2]] + [c for c in p.conds if c[0][0] == "int"]
-        hvflag = [c for c in p.conds if c[0][0] == "hv"]
-        ctx.check(any(c[1] == 0 for c in hvflag), "writer:dash-iff-nothing-written", "`-` for the castling field is not conditional on nothing having been written", where)
     # reader
     cb = f.need(g.stage_for(B + "::from_fen", "castling"))
     cps = sym.SymExec(f, cb, inline=lambda n: False if n in g.W else None, peel=True, count_next=True, max_paths=200000).run()
